@@ -42,6 +42,11 @@ def scale_docs():
         out.append(("meta%d" % n, "".join("key%d: value [%%key%d]\n" % (i, (i * 3) % n) for i in r) + "\nbody [%%key1] [%%key%d]\n" % (n - 1)))
     # every note kind called from a heading (headings are rendered again for tables of contents and EPUB navigation)
     out.append(("headnotes", "# H [?g] [>ab] ab x[^f] y[#c] [?(t) inl] [>(cd) Cd] z[^inline]\n\n{{TOC}}\n\n## Two [?g] ab\n\ntext [?g] [>ab]\n\n[?g]: gl\n[>ab]: abbr\n[^f]: fn\n[#c]: cite\n"))
+    # more notes of one kind than a 16-bit counter holds
+    out.append(("fn33k", "[^a]a" * 33000 + "\n"))
+    out.append(("gloss33k", " ".join("[?(t%d) d]" % i for i in range(33000)) + "\n"))
+    out.append(("abbr33k", " ".join("[>(a%d) x]" % i for i in range(33000)) + "\n"))
+    out.append(("cite33k", " ".join("[p. 1][#c%d]" % (i % 50) for i in range(33000)) + "\n\n" + "".join("[#c%d]: ref\n" % i for i in range(50))))
     out.append(("longabbr", "[>" + "a" * 300 + "]: x\n[>" + "b" * 255 + "]: y\n[>" + "c" * 256 + "]: z\n\n" + "a" * 300 + " " + "b" * 255 + " " + "c" * 256 + "\n"))
     out.append(("inlineabbr", " ".join("[>(ab%d) Abbr %d]" % (i, i) for i in range(300)) + " ab7 ab299\n"))
     out.append(("table", "|" + "c|" * 300 + "\n|" + "-|" * 300 + "\n" + ("|" + "x|" * 300 + "\n") * 30))
